@@ -540,4 +540,240 @@ Section Get.
         destruct (enabled_small_block l f k Inv Hk En) as (e0 & rows0 & He0 & _ & Hne & Hle & _).
         rewrite He in He0. injection He0 as <-. apply e_dec_none in Hd. lia.
   Qed.
+
+  (* ====================================================================== *)
+  (* lower_get                                                               *)
+  (* ====================================================================== *)
+  Definition get_outcome (l : lower) (t : N) (k : nat) (res : res N * lower) : Prop :=
+    (exists f l', res = (Ok f, l') /\ f / TF g = t /\
+                  spec_get_enabled (abs g l) f k = true /\
+                  abs g l' = spec_get g (abs g l) f k /\ LowerInv g l') \/
+    (res = (Err EMemory, l) /\
+     forall f, f / TF g = t -> spec_get_enabled (abs g l) f k = false).
+
+  Lemma lower_get_small l start k :
+    LowerInv g l -> (k < hord g)%nat -> (start * 64) / TF g < ntab g (frames l) ->
+    get_outcome l ((start * 64) / TF g) k (lower_get g l start k).
+  Proof.
+    intros Inv Hk Ht. set (t := start * 64 / TF g) in *.
+    pose proof (THUGE_pos g) as HT.
+    unfold lower_get. cbv zeta. fold t. rewrite (has_tree_true l t Inv Ht). cbn [negb].
+    replace (Nat.leb (hord g) k) with false by (symmetry; apply Nat.leb_gt; lia).
+    set (ts := t * THUGE g). set (co := (start * 64 / HF g) mod THUGE g).
+    destruct (get_small_loop g l ts co start k 0 (thuge_nat g)) as [r l'] eqn:E.
+    destruct (get_small_loop_spec l ts co start k Inv Hk (tree_ents l t Inv Ht) _ _ _ _ E)
+      as [(-> & -> & Hall)|(h & e & rows & rows' & off & Hh & He & Hne & Hle & Hb & Hs & -> & ->)].
+    - right. split; [reflexivity|]. intros f Hf.
+      rewrite div_TF in Hf. apply tree_of_huge in Hf. fold ts in Hf.
+      destruct (rot_surj (THUGE g) co (f / HF g - ts)) as (j & Hj & Ej); [lia|].
+      apply (child_fail_no_block l (f / HF g) start k f Inv Hk); [|reflexivity].
+      specialize (Hall j). rewrite <- THUGE_nat in Hall.
+      replace (ts + (co + j) mod THUGE g) with (f / HF g) in Hall by (rewrite (N.add_comm co j), Ej; lia).
+      apply Hall. lia.
+    - left. destruct (LowerInv_huge_ok g l h e rows Inv He Hb) as (Hok & _).
+      destruct (bf_sfz_some g WF rows start k rows' off Hok ltac:(lia) Hs) as (Hal & Hfit & Hok' & Z & Hbits).
+      destruct (small_step l h e rows rows' off k Inv Hk He Hb Hne Hle Hal Hfit Hok' Z Hbits)
+        as (En & Ea & Inv').
+      eexists. eexists. split; [reflexivity|]. split; [|split; [exact En|split; [exact Ea|exact Inv']]].
+      pose proof (pow2_pos k). destruct (in_huge_divmod h (h * HF g + off)) as (Ed & _); [lia|].
+      rewrite div_TF, Ed. apply tree_of_huge. exact Hh.
+  Qed.
+
+  Lemma lower_get_huge l start k :
+    LowerInv g l -> (hord g <= k)%nat -> (k <= tord g)%nat -> (start * 64) / TF g < ntab g (frames l) ->
+    get_outcome l ((start * 64) / TF g) k (lower_get g l start k).
+  Proof.
+    intros Inv Hk Hkt Ht. set (t := start * 64 / TF g) in *.
+    pose proof (THUGE_pos g) as HT.
+    unfold lower_get. cbv zeta. fold t. rewrite (has_tree_true l t Inv Ht). cbn [negb].
+    replace (Nat.leb (hord g) k) with true by (symmetry; apply Nat.leb_le; lia).
+    set (hn := pow2 (k - hord g)).
+    assert (Hle : (k - hord g <= tlog g)%nat) by (unfold tord in Hkt; lia).
+    assert (EQ : THUGE g = pow2 (tlog g - (k - hord g)) * hn) by (rewrite THUGE_pow2; apply pow2_split, Hle).
+    set (Q := pow2 (tlog g - (k - hord g))) in *.
+    assert (HQ : 0 < Q) by apply pow2_pos. assert (Hhn : 0 < hn) by apply pow2_pos.
+    destruct (N.ltb_spec (THUGE g) hn) as [C|_]; [nia|].
+    assert (EQd : THUGE g / hn = Q) by (rewrite EQ; apply N.div_mul; lia).
+    rewrite EQd.
+    set (ts := t * THUGE g). set (c := (start * 64 / HF g) mod THUGE g / hn).
+    assert (Eidx : forall k', (c * hn + k' * hn) mod THUGE g = ((c + k') mod Q) * hn).
+    { intros k'. rewrite EQ, <- N.mul_add_distr_r. apply N.mul_mod_distr_r; lia. }
+    destruct (get_huge_loop g l ts (c * hn) hn 0 (nn Q)) as [r l'] eqn:E.
+    destruct (get_huge_loop_spec l ts (c * hn) hn _ _ _ _ E)
+      as [(-> & -> & Hall)|(k' & es & Hk' & C & -> & ->)].
+    - right. split; [reflexivity|]. intros f Hf.
+      destruct (spec_get_enabled (abs g l) f k) eqn:En; [exfalso|reflexivity].
+      destruct (enabled_huge_block l f k Inv Hk En) as (Ef & Ehm & Hents). fold hn in Ehm, Hents.
+      rewrite div_TF in Hf. apply tree_of_huge in Hf. fold ts in Hf.
+      set (h := f / HF g) in *.
+      pose proof (aligned_mul h hn ltac:(lia) Ehm) as Eh.
+      assert (Ets : ts = t * Q * hn) by (subst ts; rewrite EQ; lia).
+      set (m := h / hn - t * Q).
+      assert (Em : h = ts + m * hn) by (subst m; nia).
+      assert (Hm : m < Q) by nia.
+      destruct (rot_surj Q c m Hm) as (j & Hj & Ej).
+      specialize (Hall j). unfold nn in Hall. rewrite N2Nat.id in Hall.
+      rewrite Eidx, (N.add_comm c j), Ej, <- Em in Hall.
+      apply cas_all_none in Hall; [|lia]. destruct Hall as (i & Hi & Hne). apply Hne.
+      specialize (Hents (N.of_nat i)). unfold ent, nn in Hents. rewrite Nat2N.id in Hents.
+      apply Hents. lia.
+    - left. rewrite Eidx in C |- *.
+      set (h := ts + (c + k') mod Q * hn) in *.
+      assert (Ets : ts = t * Q * hn) by (subst ts; rewrite EQ; lia).
+      assert (Ehm : h mod hn = 0).
+      { subst h. rewrite Ets, <- N.mul_add_distr_r. apply N.mod_mul. lia. }
+      destruct (huge_step l h es k Inv Hk Ehm C) as (En & Ea & Inv').
+      eexists. eexists. split; [reflexivity|]. split; [|split; [exact En|split; [exact Ea|exact Inv']]].
+      rewrite div_TF, N.div_mul by apply HF_nz. apply tree_of_huge. fold ts.
+      pose proof (N.mod_lt (c + k') Q ltac:(lia)). subst h. nia.
+  Qed.
+
+  Theorem lower_get_spec l start k :
+    LowerInv g l -> (k <= tord g)%nat -> (start * 64) / TF g < ntab g (frames l) ->
+    get_outcome l ((start * 64) / TF g) k (lower_get g l start k).
+  Proof.
+    intros Inv Hkt Ht. destruct (Nat.lt_ge_cases k (hord g)) as [Hk|Hk].
+    - apply lower_get_small; assumption.
+    - apply lower_get_huge; assumption.
+  Qed.
+
+  (* ----- the three readings of lower_get_spec ----- *)
+  Theorem lower_get_no_panic l start k :
+    LowerInv g l -> (k <= tord g)%nat -> (start * 64) / TF g < ntab g (frames l) ->
+    forall s, fst (lower_get g l start k) <> Panic s.
+  Proof.
+    intros Inv Hkt Ht s.
+    destruct (lower_get_spec l start k Inv Hkt Ht) as [(f & l' & -> & _)|(-> & _)]; discriminate.
+  Qed.
+
+  Theorem lower_get_err l start k e l' :
+    LowerInv g l -> (k <= tord g)%nat -> (start * 64) / TF g < ntab g (frames l) ->
+    lower_get g l start k = (Err e, l') ->
+    e = EMemory /\ l' = l /\
+    (* C12: nothing of that order was available in the tree *)
+    forall f, f / TF g = (start * 64) / TF g -> spec_get_enabled (abs g l) f k = false.
+  Proof.
+    intros Inv Hkt Ht H.
+    destruct (lower_get_spec l start k Inv Hkt Ht) as [(f & l0 & E & _)|(E & Hno)]; rewrite E in H.
+    - discriminate.
+    - injection H as <- <-. auto.
+  Qed.
+
+  Theorem lower_get_ok l start k f l' :
+    LowerInv g l -> (k <= tord g)%nat -> (start * 64) / TF g < ntab g (frames l) ->
+    lower_get g l start k = (Ok f, l') ->
+    f / TF g = (start * 64) / TF g /\
+    spec_get_enabled (abs g l) f k = true /\
+    abs g l' = spec_get g (abs g l) f k /\
+    LowerInv g l'.
+  Proof.
+    intros Inv Hkt Ht H.
+    destruct (lower_get_spec l start k Inv Hkt Ht) as [(f0 & l0 & E & R)|(E & _)]; rewrite E in H.
+    - injection H as <- <-. exact R.
+    - discriminate.
+  Qed.
+
+  (* C12, positive form: if a block of order k is available in the tree, the search finds one *)
+  Corollary lower_get_complete l start k f :
+    LowerInv g l -> (k <= tord g)%nat -> (start * 64) / TF g < ntab g (frames l) ->
+    f / TF g = (start * 64) / TF g -> spec_get_enabled (abs g l) f k = true ->
+    exists f' l', lower_get g l start k = (Ok f', l').
+  Proof.
+    intros Inv Hkt Ht Hf En.
+    destruct (lower_get_spec l start k Inv Hkt Ht) as [(f0 & l0 & E & _)|(_ & Hno)]; [eauto|].
+    rewrite (Hno f Hf) in En. discriminate.
+  Qed.
+
+  (* ----- readings of lower_get_at_spec ----- *)
+  Theorem lower_get_at_no_panic l f k :
+    LowerInv g l -> (k <= tord g)%nat -> aligned f k = true -> f + pow2 k <= frames l ->
+    forall s, fst (lower_get_at g l f k) <> Panic s.
+  Proof.
+    intros Inv Hkt Hal Hr s.
+    destruct (lower_get_at_spec l f k Inv Hkt Hal Hr) as [(_ & l' & -> & _)|(_ & ->)]; discriminate.
+  Qed.
+
+  Theorem lower_get_at_ok_iff l f k :
+    LowerInv g l -> (k <= tord g)%nat -> aligned f k = true -> f + pow2 k <= frames l ->
+    ((exists l', lower_get_at g l f k = (Ok tt, l')) <-> spec_get_enabled (abs g l) f k = true).
+  Proof.
+    intros Inv Hkt Hal Hr.
+    destruct (lower_get_at_spec l f k Inv Hkt Hal Hr) as [(En & l' & E & _)|(En & E)]; rewrite En, E.
+    - split; eauto.
+    - split; [intros (l' & H)|]; discriminate.
+  Qed.
+
+  Theorem lower_get_at_ok l f k u l' :
+    LowerInv g l -> (k <= tord g)%nat -> aligned f k = true -> f + pow2 k <= frames l ->
+    lower_get_at g l f k = (Ok u, l') ->
+    spec_get_enabled (abs g l) f k = true /\ abs g l' = spec_get g (abs g l) f k /\ LowerInv g l'.
+  Proof.
+    intros Inv Hkt Hal Hr H.
+    destruct (lower_get_at_spec l f k Inv Hkt Hal Hr) as [(En & l0 & E & R)|(_ & E)]; rewrite E in H.
+    - injection H as <-. split; [exact En|exact R].
+    - discriminate.
+  Qed.
+
+  Theorem lower_get_at_err l f k e l' :
+    LowerInv g l -> (k <= tord g)%nat -> aligned f k = true -> f + pow2 k <= frames l ->
+    lower_get_at g l f k = (Err e, l') ->
+    e = EMemory /\ l' = l /\ spec_get_enabled (abs g l) f k = false.
+  Proof.
+    intros Inv Hkt Hal Hr H.
+    destruct (lower_get_at_spec l f k Inv Hkt Hal Hr) as [(_ & l0 & E & _)|(En & E)]; rewrite E in H.
+    - discriminate.
+    - injection H as <- <-. auto.
+  Qed.
+
+  (* ====================================================================== *)
+  (* lower_get_opt: `Lower::get(start, order, frame)`                        *)
+  (* ====================================================================== *)
+  Definition get_opt_pre (l : lower) (start : N) (k : nat) (frame : option N) : Prop :=
+    match frame with
+    | Some f => aligned f k = true /\ f + pow2 k <= frames l
+    | None => (start * 64) / TF g < ntab g (frames l)
+    end.
+
+  Theorem lower_get_opt_no_panic l start k frame :
+    LowerInv g l -> (k <= tord g)%nat -> get_opt_pre l start k frame ->
+    forall s, fst (lower_get_opt g l start k frame) <> Panic s.
+  Proof.
+    intros Inv Hkt Hpre s. destruct frame as [f|]; cbn [lower_get_opt get_opt_pre] in *.
+    - destruct Hpre as (Hal & Hr).
+      destruct (lower_get_at_spec l f k Inv Hkt Hal Hr) as [(_ & l' & -> & _)|(_ & ->)]; discriminate.
+    - apply lower_get_no_panic; assumption.
+  Qed.
+
+  Theorem lower_get_opt_ok l start k frame f l' :
+    LowerInv g l -> (k <= tord g)%nat -> get_opt_pre l start k frame ->
+    lower_get_opt g l start k frame = (Ok f, l') ->
+    match frame with Some f0 => f = f0 | None => f / TF g = (start * 64) / TF g end /\
+    spec_get_enabled (abs g l) f k = true /\
+    abs g l' = spec_get g (abs g l) f k /\
+    LowerInv g l'.
+  Proof.
+    intros Inv Hkt Hpre H. destruct frame as [f0|]; cbn [lower_get_opt get_opt_pre] in *.
+    - destruct Hpre as (Hal & Hr).
+      destruct (lower_get_at_spec l f0 k Inv Hkt Hal Hr) as [(En & l0 & E & R)|(_ & E)]; rewrite E in H.
+      + injection H as <- <-. split; [reflexivity|]. split; [exact En|exact R].
+      + discriminate.
+    - apply lower_get_ok; assumption.
+  Qed.
+
+  Theorem lower_get_opt_err l start k frame e l' :
+    LowerInv g l -> (k <= tord g)%nat -> get_opt_pre l start k frame ->
+    lower_get_opt g l start k frame = (Err e, l') ->
+    e = EMemory /\ l' = l /\
+    match frame with
+    | Some f0 => spec_get_enabled (abs g l) f0 k = false
+    | None => forall f, f / TF g = (start * 64) / TF g -> spec_get_enabled (abs g l) f k = false
+    end.
+  Proof.
+    intros Inv Hkt Hpre H. destruct frame as [f0|]; cbn [lower_get_opt get_opt_pre] in *.
+    - destruct Hpre as (Hal & Hr).
+      destruct (lower_get_at_spec l f0 k Inv Hkt Hal Hr) as [(_ & l0 & E & _)|(En & E)]; rewrite E in H.
+      + discriminate.
+      + injection H as <- <-. auto.
+    - apply lower_get_err; assumption.
+  Qed.
 End Get.
